@@ -119,6 +119,8 @@ def tlc_export_exec(ctx, bins, cfg, events_path, timeout, label):
         return res, nev, hang[0][5:]
     if rc != 0:
         raise core.ToolError("vh-wire exec failed (exit %s): %s" % (rc, out[-500:]))
+    if not res.ok and not res.violated and "Evaluating invariant" not in tail and "The invariant" not in tail:
+        raise core.ToolError("TLC failed in %s (not a verdict): %s" % (cfg, (res.error or tail[-600:])))
     if not res.ok:
         # the laws fail on the model itself: the specification (the design) is inconsistent
         ctx.report("model:" + cfg + ":" + str(res.violated or "error"),
@@ -304,8 +306,8 @@ def run_property(ctx, pid):
         ctx.add_states(r, "UTF-8 predicate of the token heuristic = 2650112 valid 3-byte strings; toy codec compresses some model packets")
         if not r.ok:
             ctx.report("model:utf", "Utf8Valid3 does not count 2650112: %s" % (r.error or r.violated), {"cfg": "MC_utf.cfg"})
-    if pid == "C05" and not quick:
-        full_headers(ctx)
+    if not quick:
+        deep_model(ctx, pid)
 
     # ---- direction A: every enumerated case through the real code
     cfg = "Exp_%s_%s.cfg" % (pid, tier)
@@ -346,25 +348,44 @@ def run_property(ctx, pid):
     return nviol, ndrift
 
 
-def full_headers(ctx):
-    """All 2^24 three-byte 0.6 packet headers and vital chunk headers, all 2^24 (b0,b1,b2) of the 0.7
-    packet header and vital chunk header: laws only (TLC), sliced over the first byte, 4 processes."""
+def _cfg(ctx, name, tier, fams, lo, hi):
+    p = os.path.join(ctx.workdir, name)
+    open(p, "w").write('CONSTANTS\n  Tier = "%s"\n  Export = FALSE\n  Fams = {%s}\n  SliceLo = %d\n  SliceHi = %d\n'
+                       'INIT Init\nNEXT Next\nINVARIANT Law\n' % (tier, ", ".join('"%s"' % f for f in fams), lo, hi))
+    return p
+
+
+def deep_model(ctx, pid, parallel=8, timeout=3000):
+    """Model-only runs (no export) with the wide domains, as parallel single-worker TLC processes
+    (initial-state enumeration is sequential in TLC, so the domains are sliced instead).
+      C05: all 2^24 (b0,b1,b2) patterns of the 0.6 packet header, both vital chunk headers and the 0.7 packet
+           header; all in-range field tuples of every header.
+      C06: strings over the reduced alphabet up to length 4 behind every header prefix, single and double
+           corruptions / truncations / extensions of the valid model packets."""
     jobs = []
-    for tier in ("full6", "full7"):
-        for lo in (0, 128):
-            cfgp = os.path.join(ctx.workdir, "MC_%s_%d.cfg" % (tier, lo))
-            open(cfgp, "w").write('CONSTANTS\n  Tier = "%s"\n  Export = FALSE\n  Fams = {}\n  SliceLo = %d\n  SliceHi = %d\n'
-                                  'INIT Init\nNEXT Next\nINVARIANT Law\n' % (tier, lo, lo + 127))
-            jobs.append((tier, lo, cfgp))
+    if pid == "C05":
+        for tier in ("full6", "full7"):
+            for lo in (0, 64, 128, 192):
+                jobs.append(("all byte patterns %s, first byte %d..%d" % (tier, lo, lo + 63),
+                             _cfg(ctx, "MC_%s_%d.cfg" % (tier, lo), tier, [], lo, lo + 63)))
+        for lo in (0, 256, 512, 768):
+            jobs.append(("all in-range header field tuples, slice %d..%d of ack/size/seq" % (lo, lo + 255),
+                         _cfg(ctx, "MC_deep_hf_%d.cfg" % lo, "deep", ["hf"], lo, lo + 255)))
+        jobs.append(("header byte patterns (deep boundary sets), packets", _cfg(ctx, "MC_deep_hb.cfg", "deep", ["hb", "rt"], 0, 1023)))
+    else:
+        for fam in ("short6", "short7", "cor6", "cor7"):
+            jobs.append(("reader totality / re-read law on the model: %s (deep)" % fam,
+                         _cfg(ctx, "MC_deep_%s.cfg" % fam, "deep", [fam], 0, 1023)))
     import concurrent.futures as cf
-    with cf.ThreadPoolExecutor(max_workers=4) as ex:
-        futs = {ex.submit(core.run_tlc, "MC_Wire.tla", cfgp, SPECDIR, 1, 2400): (tier, lo) for tier, lo, cfgp in jobs}
+    with cf.ThreadPoolExecutor(max_workers=parallel) as ex:
+        futs = {ex.submit(core.run_tlc, "MC_Wire.tla", cfgp, SPECDIR, 1, timeout): label for label, cfgp in jobs}
         for f in cf.as_completed(futs):
-            tier, lo = futs[f]
+            label = futs[f]
             r = f.result()
-            ctx.add_states(r, "all header byte patterns %s, first byte %d..%d (pack/unpack inverse, no warning <=> canonical)" % (tier, lo, lo + 127))
+            ctx.add_states(r, "MC_Wire model only: " + label)
             if not r.ok:
-                ctx.report("model:%s:%d" % (tier, lo), "header law fails on the model: %s" % (r.error or r.violated), {"cfg": tier})
+                ctx.report("model:deep:%s" % label, "a law of Wire/Wire7 fails on the model (%s): %s" % (label, r.error or r.violated),
+                           {"label": label, "tlc_tail": r.out[-3000:]})
 
 
 def binding_demo(ctx, pid, path):
